@@ -19,12 +19,20 @@ Theorem C03_single : forall c w e um a r, plain_env e = true ->
 Proof. exact C03_single_proof. Qed.
 Print Assumptions C03_single.
 
-(* (c) umount -all.  For this command and a plain environment the predicate is the conjunction
-   [all_safe && all_outcome] (C03_all_split).
+(* without an installation (base directories / skeleton missing, layers not a forest) every form
+   of the command fails and leaves everything unchanged: the precondition of the predicate *)
+Theorem C03_not_set_up : forall c w e um n all, plain_env e = true -> set_up c w = false ->
+  C03.step_spec c w (view_of_model c w e (CUmount n all) um) = true.
+Proof. exact C03P.C03_not_set_up. Qed.
+Print Assumptions C03_not_set_up.
+
+(* (c) umount -all.  For this command, a plain environment and an installation the predicate is
+   the conjunction [all_safe && all_outcome] (C03_all_split).
    Safety -- every call legal inside the build roots, mounts outside them untouched, layers
-   processed descendants first -- holds for every world with a well-formed table, unique layer
+   processed descendants first, no layer touched that is still overlain at the end -- holds for every world with a well-formed table, unique layer
    names and build roots that are proper, pairwise unrelated directories. *)
 Theorem C03_all_split : forall c w v, v_cmd v = CUmount [] true -> plain_env (v_env v) = true ->
+  set_up c w = true ->
   C03.step_spec c w v = C03AllP.all_safe c w v && C03AllP.all_outcome c w v.
 Proof. exact C03AllP.step_spec_all. Qed.
 Print Assumptions C03_all_split.
@@ -35,7 +43,8 @@ Proof. exact C03AllP.C03_all_safety_proof. Qed.
 Print Assumptions C03_all_safety.
 
 (* the whole predicate, ROk / RFail clauses included, under the further decidable hypotheses of
-   [C03_all_hyp]; docs/proofs-C03-C04.md gives for each of them the world that refutes the
+   [C03_all_hyp] (well-formed parent ids, no trailing slash in the directory settings, overlays
+   placed on descendants); docs/proofs-C03-C04.md gives for each of them the world that refutes the
    predicate without it *)
 Theorem C03_all_partial : forall c w e um, plain_env e = true -> C03AllP.C03_all_hyp c w = true ->
   C03.step_spec c w (view_of_model c w e (CUmount [] true) um) = true.
